@@ -32,14 +32,15 @@ var (
 	TNeg = time.Unix(-1, -1).UTC()
 	TNow = time.Date(2024, 2, 29, 23, 59, 59, 999999999, time.UTC)
 	// a zone NAME that needs escaping (layouts that print MST carry it into the output)
-	TZone = time.Date(2021, 3, 4, 5, 6, 7, 0, time.FixedZone("q\"z\\\n", 3600))
-	IPv4  = net.IP{192, 168, 0, 1}
-	IPv4m = net.ParseIP("10.0.0.1") // 16-byte form
-	IPv6  = net.ParseIP("2001:db8::1")
-	Net4  = net.IPNet{IP: net.IP{10, 1, 0, 0}, Mask: net.CIDRMask(16, 32)}
-	Net6  = net.IPNet{IP: net.ParseIP("2001:db8::"), Mask: net.CIDRMask(32, 128)}
-	Mac6  = net.HardwareAddr{0, 0x14, 0x22, 1, 0x23, 0x45}
-	Mac8  = net.HardwareAddr{1, 2, 3, 4, 5, 6, 7, 8}
+	TZone  = time.Date(2021, 3, 4, 5, 6, 7, 0, time.FixedZone("q\"z\\\n", 3600))
+	TZoneU = time.Date(2021, 3, 4, 5, 6, 7, 0, time.FixedZone("Z\xff\xc0é", -7200)) // a zone name that is not valid UTF-8
+	IPv4   = net.IP{192, 168, 0, 1}
+	IPv4m  = net.ParseIP("10.0.0.1") // 16-byte form
+	IPv6   = net.ParseIP("2001:db8::1")
+	Net4   = net.IPNet{IP: net.IP{10, 1, 0, 0}, Mask: net.CIDRMask(16, 32)}
+	Net6   = net.IPNet{IP: net.ParseIP("2001:db8::"), Mask: net.CIDRMask(32, 128)}
+	Mac6   = net.HardwareAddr{0, 0x14, 0x22, 1, 0x23, 0x45}
+	Mac8   = net.HardwareAddr{1, 2, 3, 4, 5, 6, 7, 8}
 )
 
 type plainStruct struct {
@@ -137,7 +138,7 @@ func ClassValues(m string) []interface{} {
 	case "Floats64":
 		return []interface{}{[]float64(nil), []float64{}, []float64{math.NaN(), math.Inf(-1)}, []float64{1e-7, 1e21, 0.1, float64(float32(0.1))}}
 	case "Time":
-		return []interface{}{T0, TEp, TFix, TNeg, TZone}
+		return []interface{}{T0, TEp, TFix, TNeg, TZone, TZoneU}
 	case "Times":
 		return []interface{}{[]time.Time(nil), []time.Time{}, []time.Time{TFix}, []time.Time{TEp, TFix}, []time.Time{TZone, TZone}}
 	case "Dur":
